@@ -259,6 +259,31 @@ def gen_config(rng, tab, max_tests=3, windows=None, tests=None):
             plan[sid] = [(t, *test_params(rng, tab, t)) for t in chosen]
     for w in wins:
         ctxs.append({"window": w, "streams": copy.deepcopy(plan)})
+    r = rng.random()
+    if r < 0.25 and len(ctxs) >= 2:
+        # contexts that do not all run the same tests: every context but the first loses some of its entries
+        for c in ctxs[1:]:
+            entries = [(sid, e) for sid, es in c["streams"].items() for e in es]
+            keep = set(rng.sample(range(len(entries)), rng.randint(1, len(entries)))) if entries else set()
+            c["streams"] = {}
+            for i, (sid, e) in enumerate(entries):
+                if i in keep:
+                    c["streams"].setdefault(sid, []).append(e)
+    elif r < 0.40 and len(ctxs) >= 2:
+        # the first window written a second time AFTER the others, carrying the part of its entries the first mention
+        # left out (equal contexts that are not adjacent in the list)
+        first = ctxs[0]
+        entries = [(sid, e) for sid, es in first["streams"].items() for e in es]
+        if len(entries) >= 2:
+            cut = rng.randint(1, len(entries) - 1)
+            a, b = entries[:cut], entries[cut:]
+            first["streams"] = {}
+            for sid, e in a:
+                first["streams"].setdefault(sid, []).append(e)
+            again = {"window": first["window"], "streams": {}}
+            for sid, e in b:
+                again["streams"].setdefault(sid, []).append(e)
+            ctxs.append(again)
     return ctxs
 
 
@@ -328,6 +353,15 @@ def run_frontend(fe, tab, cfg_dict, tmpdir=None, twice=False):
             # a finite number under the mask
             conv = fl_masked if (tab["n"] + len(tab["cols"])) % 3 == 0 else fl
             kw = {"inp": {s: conv(v) for s, v in tab["cols"].items()}, "time": times_ns(tab)}
+            if tab["n"] % 4 == 1:
+                # a dict subclass with a default factory (records appended stream by stream): `in` says a stream is
+                # absent, subscripting would invent it
+                import collections
+                n_rows = tab["n"]
+                kw["inp"] = collections.defaultdict(lambda: np.full(n_rows, np.nan), kw["inp"])
+            elif tab["n"] % 4 == 2:
+                import collections
+                kw["inp"] = collections.OrderedDict(kw["inp"])
             for a, v in tab["axes"].items():
                 kw[a] = conv(v)
             st = NumpyStream(**kw)
